@@ -247,9 +247,11 @@ func hmacSection(x *h.X) {
 	}
 	x.NonTrivial()
 	x.Outcome("hmac/" + hash + "/" + v.String())
-	maxLen := 130
+	// every length over several hash blocks (HMAC) / many AES blocks (CMAC): chunked processing of leading
+	// blocks only shows for particular length classes
+	maxLen := 330
 	if hash == "SHA384" || hash == "SHA512" {
-		maxLen = 260
+		maxLen = 520
 	}
 	exercise(x, m, want, maxLen, len(pre), otherPrefixes(v, id), cfg)
 }
@@ -347,7 +349,7 @@ func cmacSection(x *h.X) {
 	}
 	x.NonTrivial()
 	x.Outcome(fmt.Sprintf("cmac/%d/msb%02b/%v", ksize, ki, v))
-	exercise(x, m, want, 80, len(pre), otherPrefixes(v, id), cfg)
+	exercise(x, m, want, 700, len(pre), otherPrefixes(v, id), cfg)
 }
 
 // invalidSection: parameter combinations the property excludes must be refused, not silently weakened.
